@@ -155,7 +155,9 @@ def main(argv):
         for why in r.get('inconclusive', []):
             inconclusive.append(f"{r['shard_spec']['name']}: {why}")
         if r.get('extra'):
-            extras[r['shard_spec']['name']] = r['extra']
+            pub = {k: v for k, v in r['extra'].items() if k != 'progs'}
+            if pub:
+                extras[r['shard_spec']['name']] = pub
 
     # cross-shard checks (differential properties)
     if hasattr(mod, 'finalize') and not replay:
